@@ -2,6 +2,7 @@ package dbl
 
 import (
 	"context"
+	"errors"
 	"fmt"
 	"sync"
 
@@ -69,6 +70,25 @@ type GS struct {
 	// queued with QueueOnLoop is handled by the loop before the next Pause / Unpause.
 	loop      sync.Mutex
 	loopQueue []func()
+
+	// CancelUnconfirmed makes Cancel behave as go-graphsync v0.18 does for a request that
+	// was pausing when it was cancelled: the cancel is sent, but the termination is never
+	// confirmed, and the call ignores its context (it only ends with graphsync itself).
+	CancelUnconfirmed bool
+	released          chan struct{}
+	releaseOnce       sync.Once
+}
+
+// Release ends every Cancel call that is waiting for a confirmation (graphsync shut down).
+func (g *GS) Release() {
+	g.releaseOnce.Do(func() { close(g.released) })
+}
+
+// SetCancelUnconfirmed switches the unconfirmed-cancel behaviour.
+func (g *GS) SetCancelUnconfirmed(v bool) {
+	g.mu.Lock()
+	g.CancelUnconfirmed = v
+	g.mu.Unlock()
 }
 
 // QueueOnLoop queues work the run loop handles before it serves the next Pause / Unpause
@@ -105,7 +125,7 @@ func (g *GS) serveLoop(c *GSCall) error {
 var _ graphsync.GraphExchange = (*GS)(nil)
 
 func NewGS() *GS {
-	return &GS{requests: map[graphsync.RequestID]*gsRequest{}, errs: map[string]error{}, stores: map[string]bool{}, CancelCompletes: true}
+	return &GS{requests: map[graphsync.RequestID]*gsRequest{}, errs: map[string]error{}, stores: map[string]bool{}, CancelCompletes: true, released: make(chan struct{})}
 }
 
 func (g *GS) rec(c GSCall) error {
@@ -307,7 +327,12 @@ func (g *GS) Cancel(ctx context.Context, id graphsync.RequestID) error {
 	err := g.rec(GSCall{Kind: "cancel", ID: id})
 	g.mu.Lock()
 	cc := g.CancelCompletes
+	unconfirmed := g.CancelUnconfirmed
 	g.mu.Unlock()
+	if unconfirmed {
+		<-g.released
+		return errors.New("context cancelled")
+	}
 	if cc {
 		g.Complete(id, graphsync.RequestClientCancelledErr{})
 	}
